@@ -248,8 +248,13 @@ def w_rules(ctx):
     if ctx.config == "libs-all":
         # W8: every name the generated into_rpc registers is dispatched: the server's dispatcher answers `method not
         # found` only on a miss of the registry lookup itself (no name prefix / kind is refused before or after it)
-        from . import c13
+        from . import c13, c15, c04
         c13.r5_not_found_iff_unbound(ctx, "C17.W8")
+        # W9: the value a stub receives is the value the server method returned: the WS client decodes every `{` message
+        # as a Response first, unconditionally (C15.R9); the item a subscription method *returns* is delivered like the
+        # ones it sends (C04.R4: the close task waits for room instead of try_send)
+        c15.r9_client_tries_response_first(ctx)
+        c04.r4_close_gating(ctx)
         return w6_runtime_key_encoding(ctx)
     tr = ctx.tracer(follow_callers=False, follow_fields=False)
     traits = collect(F, tr)
